@@ -1404,6 +1404,11 @@ class Machine:
     def e_GeneratorExp(self, node):
         if self.spec_mode:
             raise Unsupported("generator expression inside a specification")
+        h = getattr(self.c, "genexpr_hook", None)
+        if h is not None:
+            r = h(self, node)
+            if r is not NotImplemented:
+                return r
         return self.run_comp(node, lazy=True)
 
     def e_ListComp(self, node):
@@ -2255,6 +2260,8 @@ def _b_xrange(m, args, kw):
 
 def _b_len(m, args, kw):
     (v,) = args
+    if hasattr(v, "pyvc_len"):
+        return v.pyvc_len(m)
     if isinstance(v, (tuple, str)):
         return len(v)
     if isinstance(v, Ref):
